@@ -1,5 +1,5 @@
 SPECIFICATION Spec
 CONSTRAINT TrackL
-INVARIANTS NoOvershoot StepsSumToTime EndsExactly AliveMeansNotAtEnd MinDividesLeft PhysicalOk ContinuesIdentically NotAccepted
+INVARIANTS NoOvershoot StepsSumToTime EndsExactly AliveMeansNotAtEnd MinDividesLeft PhysicalOk ContinuesIdentically
 POSTCONDITION PrintMaxL
 CHECK_DEADLOCK FALSE
